@@ -16,6 +16,9 @@ import time
 VERIF = os.path.dirname(os.path.dirname(os.path.abspath(__file__)))
 REPO = os.environ.get("MYGRAD_REPO", "/repo")
 VENV_PY = "/venv/bin/python"
+# where evidence/ and replays/ are written; only the seeded-change matrix (lib/seed_matrix.sh), which runs several checks on scratch copies
+# concurrently, points this elsewhere -- registered commands always write under /verif
+OUT = os.environ.get("VERIF_OUT", VERIF)
 
 
 def load_known_findings():
@@ -103,7 +106,7 @@ class Report:
         return None
 
     def write_replay(self, name, payload):
-        d = os.path.join(VERIF, "replays", self.prop)
+        d = os.path.join(OUT, "replays", self.prop)
         os.makedirs(d, exist_ok=True)
         safe = re.sub(r"[^A-Za-z0-9_.\-\[\]=,]+", "_", name)[:150]
         p = os.path.join(d, safe + ".json")
@@ -229,8 +232,8 @@ class Report:
             wall_s=round(wall, 2),
             violations=len(self.violations),
         )
-        os.makedirs(os.path.join(VERIF, "evidence"), exist_ok=True)
-        with open(os.path.join(VERIF, "evidence", f"{self.prop}.json"), "w") as f:
+        os.makedirs(os.path.join(OUT, "evidence"), exist_ok=True)
+        with open(os.path.join(OUT, "evidence", f"{self.prop}.json"), "w") as f:
             json.dump(ev, f, indent=1, default=str)
         print(
             f"[{self.prop}] tier={self.tier} deductive {n_dis}/{n_obl} discharged, "
